@@ -69,7 +69,9 @@ Judge(s, e) ==
        ELSE IF o.fug_dev > a.ftol THEN "equilibrium.fugacities_differ"
        \* ideal package: vapour fraction against an independent Raoult's-law Rachford-Rice solution (1e-9 units; 1e-7 allowed)
        ELSE IF o.rr_dev > 100 THEN "ideal.split_differs_from_rachford_rice"
-       ELSE IF o.scale_dev > a.tol THEN "scaling.products_not_proportional"
+       \* (T-P, T-V, P-V: the scaled feed follows the same iteration on the same normalised composition; with an enthalpy / entropy
+       \* specification the iteration path differs in the last bits and the results agree to the solver's convergence tolerance: a.stol)
+       ELSE IF o.scale_dev > a.stol THEN "scaling.products_not_proportional"
        \* the same stream object refilled with other material and flashed again answers like a new stream holding that material
        ELSE IF o.hist_dev > a.htol THEN "history.differs_from_new_stream"
        ELSE "ok"
